@@ -111,6 +111,27 @@ def _build(src):
             trans.append((rng.choice(Q), "a", rng.choice([eps, eps, "X"]), rng.choice(Q), rng.choice([eps, eps, "X"])))
         F = [order[-1]] if rng.random() < 0.6 else [q for q in Q if rng.random() < 0.3]
         return U.make_pda(Q, "a", "X", sorted(set(trans)), order[0], F, eps)
+    if src["kind"] == "pda_fan":
+        # FAN-IN: one configuration reached along k epsilon paths, then a tail of 2-3 more epsilon moves to the only
+        # accepting state (optionally behind a letter); closure of k + tail + 2 configurations.  A closure loop that
+        # spends its limit on the k - 1 re-discoveries of the joint is incomplete at the boundary limit
+        rng = random.Random(src["seed"])
+        k, tail = src["k"], src["tail"]
+        names = U.names(k + tail + 3, "s")
+        rng.shuffle(names)
+        pre, q0, j = names[0], names[1], names[2]
+        mids, tl = names[3:3 + k], names[3 + k:]
+        trans = [(q0, eps, eps, m, eps) for m in mids] + [(m, eps, eps, j, eps) for m in mids]
+        for p, q in zip([j] + tl, tl):
+            trans.append((p, eps, eps, q, eps))
+        if src.get("push"):
+            # the tail pops what the first move of the fan pushed: stacks are part of the configurations
+            trans = [(p, a, u, q, ("X" if p == q0 else v)) for (p, a, u, q, v) in trans]
+            trans = [(p, a, ("X" if q == tl[-1] else u), q, v) for (p, a, u, q, v) in trans]
+        if src.get("letter"):
+            trans.append((pre, "a", eps, q0, eps))
+            return U.make_pda(names, "a", "X", trans, pre, [tl[-1]], eps)
+        return U.make_pda([x for x in names if x != pre], "a", "X", trans, q0, [tl[-1]], eps)
     if src["kind"] == "pda_spelling":
         # stack symbols X and XX: the stacks [X,XX] and [XX,X] are different but are SPELLED alike; both pushes and any
         # non-empty subset (mask) of six pops that tell them apart
